@@ -738,6 +738,11 @@ func c10Duel(c *core.Ctx, k int) {
 	if fifo {
 		s.SetFIFO(true)
 	}
+	if r.Chance(1, 3) {
+		// through an (accepting) push policy: whatever the library does around the user's closure is part of the call
+		s.SetPushPolicy(func(...any) error { return nil })
+		c.Count("duel.pairs-with-push-policy")
+	}
 	s.SetMutex()
 	c10Register(s)
 	init := []any{1, 2, 3}
